@@ -6,7 +6,19 @@ pub mod c04;
 pub mod c05;
 pub mod c06;
 pub mod c07;
+#[cfg(feature = "std")]
+pub mod c08;
+#[cfg(feature = "std")]
+pub mod c09;
+#[cfg(feature = "std")]
+pub mod c10;
+#[cfg(feature = "std")]
+pub mod c11;
+#[cfg(feature = "std")]
+pub mod c12;
 pub mod c19;
+#[cfg(feature = "std")]
+pub mod c20;
 pub mod linkfmt;
 pub mod observe;
 #[cfg(feature = "std")]
@@ -21,7 +33,19 @@ pub fn dispatch(ctx: &Ctx, rep: &mut Report) -> bool {
         "C05" => c05::run(ctx, rep),
         "C06" => c06::run(ctx, rep),
         "C07" => c07::run(ctx, rep),
+        #[cfg(feature = "std")]
+        "C08" => c08::run(ctx, rep),
+        #[cfg(feature = "std")]
+        "C09" => c09::run(ctx, rep),
+        #[cfg(feature = "std")]
+        "C10" => c10::run(ctx, rep),
+        #[cfg(feature = "std")]
+        "C11" => c11::run(ctx, rep),
+        #[cfg(feature = "std")]
+        "C12" => c12::run(ctx, rep),
         "C19" => c19::run(ctx, rep),
+        #[cfg(feature = "std")]
+        "C20" => c20::run(ctx, rep),
         "C14" => observe::run(ctx, rep, observe::Which::C14),
         "C15" => observe::run(ctx, rep, observe::Which::C15),
         "C16" => linkfmt::run_c16(ctx, rep),
